@@ -10,10 +10,12 @@ package counter
 import (
 	"fmt"
 	"os"
+	"path/filepath"
 	"strings"
 	"testing"
 	"time"
 
+	"golang.org/x/telemetry/internal/telemetry"
 	"golang.org/x/telemetry/internal/verif/vformat"
 	"golang.org/x/telemetry/internal/verif/vgen"
 	"golang.org/x/telemetry/internal/verif/vhook"
@@ -57,11 +59,17 @@ func TestVerifC04Procs(t *testing.T) {
 				names[i] = fmt.Sprintf("n%d", i)
 			}
 		}
-		// every process opens the file before the race starts (opening is sequential here;
-		// the first-run creation race of the weekends file is golang/go#68390 and not in this property)
+		// Usually every process opens the file before the race starts; in one case of three the counter file does
+		// not exist yet and creating/opening it is the first step of every process, inside the schedule (and the
+		// kill plan). The weekends file always exists beforehand: its first-run creation race is golang/go#68390
+		// and not in this property.
+		openInRace := rapid.IntRange(0, 2).Draw(t, "openInRace") == 0
 		var path string
 		for p := range files {
 			files[p] = &file{}
+			if openInRace {
+				continue
+			}
 			files[p].rotate1()
 			m := files[p].current.Load()
 			if m == nil {
@@ -72,6 +80,9 @@ func TestVerifC04Procs(t *testing.T) {
 		// Optionally fill most of the first page beforehand (sequentially, by process 0), so that
 		// the racing record creations happen right at the point where the file has to grow.
 		prefill := rapid.SampledFrom([]int{0, 0, 2, 3, 3}).Draw(t, "prefill")
+		if openInRace {
+			prefill = 0
+		}
 		prefilled := map[string]uint64{}
 		for i := 0; i < prefill; i++ {
 			name := fmt.Sprintf("fill%d/", i) + strings.Repeat("f", rapid.IntRange(3700, 4080).Draw(t, "fillLen"))
@@ -94,7 +105,7 @@ func TestVerifC04Procs(t *testing.T) {
 		killAt := map[int]int{}
 		for p := 0; p < nprocs; p++ {
 			if rapid.IntRange(0, 2).Draw(t, "kill") == 0 {
-				killAt[p] = rapid.IntRange(1, 120).Draw(t, "killStep")
+				killAt[p] = rapid.OneOf(rapid.IntRange(1, 120), rapid.IntRange(1, 14)).Draw(t, "killStep") // the second range: while opening/creating
 			}
 		}
 		begun := make([]map[int]uint64, nprocs)
@@ -105,6 +116,11 @@ func TestVerifC04Procs(t *testing.T) {
 			p := p
 			begun[p] = map[int]uint64{}
 			ctl.Go(fmt.Sprintf("proc%d", p), func() {
+				if openInRace {
+					inOp[p] = true
+					files[p].rotate1()
+					inOp[p] = false
+				}
 				for _, op := range progs[p] {
 					begun[p][op.name] += uint64(op.n)
 					inOp[p] = true
@@ -128,6 +144,8 @@ func TestVerifC04Procs(t *testing.T) {
 		lastSize := 0
 		killedInside := false
 		interleavedCreate := false
+		creatingFile, killedCreating := false, false
+		var shortSnaps [][]byte    // contents seen while the file was shorter than its minimum length
 		creating := map[int]bool{} // processes currently inside record creation (between space reservation and linking)
 		procSteps := make([]int, nprocs)
 		check := func(step int, th *vhook.Thread) {
@@ -148,9 +166,32 @@ func TestVerifC04Procs(t *testing.T) {
 			if !inOp[p] {
 				delete(creating, p)
 			}
+			if path == "" {
+				// the counter file is being created inside the schedule
+				if ms, _ := filepath.Glob(filepath.Join(telemetry.Default.LocalDir(), "*.v1.count")); len(ms) > 0 {
+					path = ms[0]
+				} else {
+					if k, ok := killAt[p]; ok && procSteps[p] == k && !th.Done {
+						ctl.Kill(th)
+						killedInside = true
+					}
+					return
+				}
+			}
 			data, err := os.ReadFile(path)
 			if err != nil {
 				t.Fatalf("step %d: %v", step, err)
+			}
+			if len(data) < vformat.Page {
+				// under creation: shorter than the minimum length, every byte written so far is header
+				creatingFile = true
+				shortSnaps = append(shortSnaps, data)
+				if k, ok := killAt[p]; ok && procSteps[p] == k && !th.Done {
+					ctl.Kill(th)
+					killedInside = true
+					killedCreating = true
+				}
+				return
 			}
 			f, err := vformat.Decode(data)
 			if err != nil {
@@ -159,6 +200,15 @@ func TestVerifC04Procs(t *testing.T) {
 			if probs := f.Validate(); len(probs) > 0 {
 				t.Fatalf("step %d (process %d at %s): the shared file violates the layout: %s", step, p, th.Site, strings.Join(probs, "; "))
 			}
+			for _, snap := range shortSnaps {
+				// whatever was in the file while it was being created is (part of) the header it has now
+				for i, b := range snap {
+					if b != 0 && (i >= int(f.HdrLen) || b != data[i]) {
+						t.Fatalf("step %d: while the file was under creation (%d bytes) offset %d held %#x; the header is now %q", step, len(snap), i, b, data[:f.HdrLen])
+					}
+				}
+			}
+			shortSnaps = nil
 			if f.Limit < lastLimit || len(data) < lastSize {
 				t.Fatalf("step %d: limit/size went backwards (%#x -> %#x, %d -> %d)", step, lastLimit, f.Limit, lastSize, len(data))
 			}
@@ -224,7 +274,8 @@ func TestVerifC04Procs(t *testing.T) {
 		}
 		vstats.Case(fmt.Sprintf("procs=%s schedule(len %d, %d switches)=%v", strings.Join(ps, " "), len(trace), switches, tail(trace, 50)),
 			interleavedCreate || killedInside, fmt.Sprintf("interleavedCreate:%v", interleavedCreate), fmt.Sprintf("killedInside:%v", killedInside),
-			fmt.Sprintf("killed:%d", killed), fmt.Sprintf("pages:%d", lastSize/vformat.Page))
+			fmt.Sprintf("killed:%d", killed), fmt.Sprintf("pages:%d", lastSize/vformat.Page),
+			fmt.Sprintf("openInRace:%v", openInRace), fmt.Sprintf("sawFileUnderCreation:%v", creatingFile), fmt.Sprintf("killedWhileCreating:%v", killedCreating))
 		vstats.Note("scheduler_steps", int64(len(trace)))
 	})
 }
